@@ -191,8 +191,9 @@ pub fn run_c15(a: &Args) {
         for e in 0..=9u32 { let p = 10u64.pow(e); dict.extend([p - 1, p, p + 1, 6 * p, 36 * p]); }
         for d in 0..=64u64 { dict.push(u32::MAX as u64 - d); dict.push(u16::MAX as u64 - d); }
         dict.sort(); dict.dedup();
-        let mut fields = 0u64;
+        let mut fields = 0u64; let mut wide_seen = 0usize;
         for compressed in [true, false] { for k in KINDS.iter() {
+            for base_no in 0..4 {
             let Some((f, _)) = gen_frame(&mut rng, k, compressed, 0, Some(1)) else { continue };
             // (offset, width) of every duration atom: fixed part, then the first tail element
             let mut slots: Vec<(usize, usize, String)> = vec![]; let mut off = 2;
@@ -201,26 +202,33 @@ pub fn run_c15(a: &Args) {
             for (o, w, name) in slots {
                 if o + w > f.len() { continue; }
                 fields += 1;
-                for v in dict.iter().filter(|v| **v < (1u64 << (8 * w))) {
+                // the first base frame takes the whole dictionary; three more frames with other values in the OTHER fields take the small part
+                for v in dict.iter().filter(|v| **v < (1u64 << (8 * w)) && (base_no == 0 || **v <= 300 || **v >= (1u64 << (8 * w)) - 66)) {
                     let mut g = f.clone(); g[o..o + w].copy_from_slice(&v.to_le_bytes()[..w]);
                     st.evaluations += 1;
                     let res = roundtrip("C15", compressed, &g, None, &mut st);
                     if res != format!("ok:{}", hex(&g)) { st.fail(format!("[C15] {}.{name}: wire value {v} re-encodes as {res}", k.name), format!("frame {} {}", crate::net::mode_tag(compressed), hex(&g))); }
                 }
-                // thorough: the whole 32-bit range of the field, on all cores
-                if a.thorough() && w == 4 && compressed {
+                // thorough: the whole 32-bit range of ONE 32-bit field per run (rotating with the seed; ~3 min on 16 cores), and every 64th
+                // value (2^26 of them, offset by the seed) of each of the others
+                if a.thorough() && w == 4 && compressed && base_no == 0 {
+                    let full = (wide_seen as u64) == a.seed % 16; wide_seen += 1;
+                    let (step, start): (u64, u64) = if full { (1, 0) } else { (64, a.seed % 64) };
                     let base = f.clone(); let kname = k.name;
                     let hs: Vec<_> = (0..16u64).map(|t| { let base = base.clone(); std::thread::spawn(move || {
                         let mut bad: Vec<u32> = vec![]; let lo = t << 28; let hi = (t + 1) << 28; let mut g = base.clone();
-                        for v in lo..hi { g[o..o + 4].copy_from_slice(&(v as u32).to_le_bytes());
+                        let mut v = lo + start;
+                        while v < hi { g[o..o + 4].copy_from_slice(&(v as u32).to_le_bytes());
                             let ok = match decode_buf(true, &g) { Dec::Got(p, _) => matches!(encode_p(true, &p), Enc::Ok(e) if e == g), _ => false };
-                            if !ok && bad.len() < 4 { bad.push(v as u32); } }
+                            if !ok && bad.len() < 4 { bad.push(v as u32); } v += step; }
                         bad }) }).collect();
                     for h in hs { for v in h.join().unwrap_or_default() { let mut g = base.clone(); g[o..o + 4].copy_from_slice(&v.to_le_bytes()); st.fail(format!("[C15] {kname}.{name}: wire value {v} does not round-trip"), format!("frame C {}", hex(&g))); } }
-                    st.evaluations += 1u64 << 32; st.exhaustive.push(format!("all 2^32 wire values of {kname}.{name}"));
+                    if full { st.evaluations += 1u64 << 32; st.exhaustive.push(format!("all 2^32 wire values of {kname}.{name}")); }
+                    else { st.evaluations += 1u64 << 26; st.bump("32-bit time fields swept at every 64th value (2^26 values each)"); }
                 }
             }
         } }
+        }
         st.notes.push(format!("time fields swept with the {}-value dictionary: {} (kinds x fields x modes)", dict.len(), fields));
     }
     // 5. encode side of every top-level time field of every kind (typed setter generated from the source): in-range durations
